@@ -45,7 +45,7 @@ class Cfg:
     """One configuration of a run: universe + how the tracks object is constructed."""
 
     def __init__(self, N=3, T=3, dims=(), scale=(), use_scale=True, reg_cust=False,
-                 per_axis_pos=False, name="struct", enable=(), rebuild=None):
+                 per_axis_pos=False, name="struct", enable=(), rebuild=None, embed=None):
         self.N, self.T = N, T
         self.dims = tuple(dims)
         self.scale = tuple(scale) if scale else tuple(1 for _ in dims)
@@ -57,6 +57,9 @@ class Cfg:
         # rebuild: after replaying a path, construct a NEW SolutionTracks from a copy of the graph
         # (ids shifted down by `shift`, so that id 0 occurs; optional falsy custom edge attribute)
         self.rebuild = dict(rebuild) if rebuild else None
+        # embed: [width, [real column of abstract column 0, 1, ...]]: the abstract frame is embedded in a
+        # wider real array (last axis), e.g. to straddle the 64-voxel chunks of the GEFF exporter
+        self.embed = embed
         self.P = int(np.prod(self.dims)) if self.dims else 0
 
     @property
@@ -67,7 +70,7 @@ class Cfg:
         return {"N": self.N, "T": self.T, "dims": list(self.dims), "scale": list(self.scale),
                 "use_scale": self.use_scale, "reg_cust": self.reg_cust,
                 "per_axis_pos": self.per_axis_pos, "name": self.name, "enable": self.enable,
-                "rebuild": self.rebuild}
+                "rebuild": self.rebuild, "embed": self.embed}
 
     @staticmethod
     def from_json(d):
@@ -89,7 +92,10 @@ class Driver:
         g = graph if graph is not None else nx.DiGraph()
         if cfg.has_seg:
             if seg is None:
-                seg = np.zeros((cfg.T, *cfg.dims), dtype=np.uint16)
+                shape = (cfg.T, *cfg.dims)
+                if cfg.embed:
+                    shape = (*shape[:-1], cfg.embed[0])
+                seg = np.zeros(shape, dtype=np.uint16)
             scale = [1, *cfg.scale] if cfg.use_scale else None
             self.tracks = SolutionTracks(g, segmentation=seg, scale=scale)
         else:
@@ -140,8 +146,10 @@ class Driver:
         """numpy multi-index of the in-frame positions selected by the bit mask"""
         cfg = self.cfg
         idx = [r for r in range(cfg.P) if (bits >> r) & 1]
-        coords = np.unravel_index(np.array(idx, dtype=int), cfg.dims)
-        return (np.full(len(idx), t, dtype=int), *[np.asarray(c) for c in coords])
+        coords = [np.asarray(c) for c in np.unravel_index(np.array(idx, dtype=int), cfg.dims)]
+        if cfg.embed:
+            coords[-1] = np.array([cfg.embed[1][c] for c in coords[-1]], dtype=int)
+        return (np.full(len(idx), t, dtype=int), *coords)
 
     def apply(self, c):
         """Execute one call of the alphabet. Returns (ok, err, emits, ret)."""
@@ -289,7 +297,12 @@ def project(tr, cfg: Cfg, queries=False, shift=0):
     seg = []
     outside = 0
     if tr.segmentation is not None:
-        seg = [int(x) for x in np.asarray(tr.segmentation).reshape(-1)]
+        arr = np.asarray(tr.segmentation)
+        if cfg.embed:
+            sub = arr[..., cfg.embed[1]]
+            outside = int(np.count_nonzero(arr)) - int(np.count_nonzero(sub))
+            arr = sub
+        seg = [int(x) for x in arr.reshape(-1)]
     shpv, shpr = shape_digests(tr, cfg)
     act = sorted(RFEAT.get(k, k) for k in tr.annotators.features)
     reg = sorted({"pos" if k in ("z", "y", "x") else RFEAT.get(k, k) for k in tr.features})
